@@ -21,6 +21,14 @@
 //	               u<sig> (UpdateDesc) e<class> (ReportError) S (beforeSelect) K (poller parked in
 //	               select) W (woken) Z (final Close issued by the harness) c (Close returned)
 //	               X (poller goroutine gone) L (still alive) !<why> (harness watchdog).
+//	    rt<ms>,pi<ms> instead of rt<ms>: interval polling (PollManually=false, PollInterval=<ms>, clamped by
+//	    withDefaults to at least 1 s); a poll started by the timer is logged as "t R …" (t only if the gap
+//	    since the select was entered is at least the clamped interval, otherwise !early-timer).
+//	opts <pi ns> <rt ns> <recursion> <prefixes|-> <manual 0|1> <onlyservices 0|1>
+//	    => the options NewResolverBuilder/Build really hand to a resolver
+//	agg <n> <u<id>|e<id>|c>,…    calls on the real aggregateWatcher over n recording watchers => <i><call>,…
+//	close2 seq|conc             a second Close() (after / concurrently with the first), with recover()
+//	indep                       two resolvers of one builder: the remembered priority of one must not leak
 //	hsvc <names> <names>     are the real hashServiceNames of the two lists equal?   => eq|ne
 //	hfile <files> <files>    same for hashNamedProtoBundles                          => eq|ne
 package c15
@@ -190,6 +198,14 @@ func (Area) Exec(input string) string {
 			return "eq"
 		}
 		return "ne"
+	case "opts":
+		return execOpts(f)
+	case "agg":
+		return execAgg(f)
+	case "close2":
+		return execClose2(f)
+	case "indep":
+		return execIndep()
 	case "hfile":
 		an, ab := parseFileList(f[1])
 		bn, bb := parseFileList(f[2])
@@ -241,7 +257,11 @@ type exec struct {
 	kick chan struct{} // wakes the main goroutine (buffered, non-blocking sends)
 
 	selectSeq atomic.Int64 // number of beforeSelect hooks released
-	wokenSeq  atomic.Int64 // number of woken hooks reached
+	wokenSeq  atomic.Int64 // number of times the poller has left a select (woken hook, or timer seen at the next beforeResolve)
+
+	interval         time.Duration // 0: PollManually; otherwise the (clamped) PollInterval
+	rtDur            time.Duration // ReqTimeout of this run
+	selectReleasedAt time.Time     // poller-owned: when the beforeSelect hook returned
 
 	// poller-goroutine-owned (hooks and fakes run on it); read by main only while the poller is parked
 	pollIdx       int // index of the current poll (-1 before the first)
@@ -320,6 +340,11 @@ func (x *exec) doActions(point byte) {
 	}
 	if pl.closeAt == point {
 		x.spawnClose()
+		if (point == 'A' || point == 'B') && x.rtDur <= 50*time.Millisecond {
+			// keep the poll (about to start / in flight) going for several request timeouts after Close was
+			// issued: Close has to wait for the poller however long the poll takes, not for one ReqTimeout
+			time.Sleep(5 * x.rtDur)
+		}
 	}
 }
 
@@ -414,6 +439,18 @@ func (x *exec) hook(name string, args ...string) {
 	switch name {
 	case "resolver.beforeResolve":
 		x.pollerGID.CompareAndSwap(0, curGID())
+		if x.selectSeq.Load() > x.wokenSeq.Load() {
+			// the poller left its select without passing the woken hook: the timer case
+			gap := time.Since(x.selectReleasedAt)
+			x.dGate.Lock() // as for a wake-up: the D actions in progress (if any) come first
+			x.dGate.Unlock()
+			if x.interval > 0 && gap >= x.interval {
+				x.logf("t")
+			} else {
+				x.logf("!early-timer")
+			}
+			x.wokenSeq.Add(1)
+		}
 		x.pollIdx++
 		x.attemptInPoll = 0
 		x.logf("R")
@@ -421,6 +458,7 @@ func (x *exec) hook(name string, args ...string) {
 	case "resolver.beforeSelect":
 		x.logf("S")
 		x.doActions('C')
+		x.selectReleasedAt = time.Now()
 		x.selectSeq.Add(1)
 		x.poke()
 	case "resolver.woken":
@@ -469,7 +507,15 @@ func execHist(f []string) string {
 		loaded:  make(chan struct{}),
 		pollIdx: -1,
 	}
-	rt, _ := strconv.Atoi(strings.TrimPrefix(f[2], "rt"))
+	rtTok, piTok, tick := strings.Cut(f[2], ",pi")
+	rt, _ := strconv.Atoi(strings.TrimPrefix(rtTok, "rt"))
+	x.rtDur = time.Duration(rt) * time.Millisecond
+	var pollInterval time.Duration
+	if tick {
+		pi, _ := strconv.Atoi(piTok)
+		pollInterval = time.Duration(pi) * time.Millisecond
+		x.interval = max(pollInterval, time.Second) // what withDefaults must make of it (pi > 0)
+	}
 	for _, cs := range strings.Split(strings.TrimPrefix(f[3], "C="), ";") {
 		x.contracts = append(x.contracts, parseContract(cs))
 	}
@@ -488,8 +534,9 @@ func execHist(f []string) string {
 	defer verifx.SetHook(nil)
 
 	builder := reflection.NewResolverBuilder(fakePool{x}, reflection.ResolverOpts{
-		PollManually: true,
-		ReqTimeout:   time.Duration(rt) * time.Millisecond,
+		PollManually: !tick,
+		PollInterval: pollInterval,
+		ReqTimeout:   x.rtDur,
 		OnlyServices: x.os,
 	})
 	x.res = builder.Build(x.target, watcher{x})
@@ -506,7 +553,7 @@ func execHist(f []string) string {
 	return strings.Join(x.log, " ")
 }
 
-const watchdog = 3 * time.Second
+const watchdog = 4 * time.Second
 
 // drive is the main-goroutine side of the schedule: it watches the poller around its select,
 // performs the D actions once the poller is parked and ends the run when nothing can wake it.
@@ -565,6 +612,10 @@ func (x *exec) drive() {
 			wait(200 * time.Microsecond)
 			continue
 		}
+		// the gate is taken BEFORE the poller is inspected: if it is parked now, whatever makes it leave the
+		// select later (a D action, the timer) is held at the woken / beforeResolve hook until K is logged
+		// and all D actions have returned
+		x.dGate.Lock()
 		x.mu.Lock()
 		st := x.pollerStatus()
 		s2, w2 := x.selectSeq.Load(), x.wokenSeq.Load()
@@ -573,20 +624,28 @@ func (x *exec) drive() {
 			x.log = append(x.log, "K")
 		}
 		x.mu.Unlock()
+		lastPlan := true
+		if isK {
+			lastPlan = x.pollIdx >= len(x.plans)-1 // the poller is parked: pollIdx is stable
+			x.doActions('D')
+		}
+		x.dGate.Unlock()
 		switch {
 		case isK:
 			handledPark = s2
 			lastProgress = time.Now()
-			x.dGate.Lock()
-			x.doActions('D')
-			x.dGate.Unlock()
 			nowakeAt = time.Time{}
 			// close() readies a parked receiver synchronously, so a poller that is still parked after
 			// the D actions (all of them have returned) will not be woken by them
 			if !x.closeSpawned.Load() && x.pollerStatus() == "parked" && x.wokenSeq.Load() == w2 {
-				// quiescent: nothing will wake the poller; end of the run
-				x.logf("Z")
-				x.spawnClose()
+				if x.interval > 0 && !lastPlan {
+					// interval polling: the timer will start the next scripted poll
+					nowakeAt = time.Now().Add(x.interval + 2*time.Second)
+				} else {
+					// quiescent: nothing (scripted) will wake the poller; end of the run
+					x.logf("Z")
+					x.spawnClose()
+				}
 			} else if !x.closeSpawned.Load() {
 				nowakeAt = time.Now().Add(2 * time.Second)
 			}
